@@ -401,6 +401,11 @@ func c14rLate(r *Rng, c Sx) Sx {
 		at := r.Range(2, len(qs)-1)
 		lit := fmt.Sprintf("late%d", k)
 		def := L(A("a"), SL([]string{"GET"}), S("/"+lit+"/{id}"), B(false))
+		if k == 1 && at > 0 && qs[at-1].Head() != "a" {
+			// ... or a STATIC route for a path that has just been looked up (and possibly cached as a dynamic match): the
+			// exact static route answers from now on
+			def = L(A("a"), SL([]string{"GET"}), qs[at-1].List[2], B(false))
+		}
 		var rest []Sx
 		for j, q := range qs[at:] {
 			rest = append(rest, q)
